@@ -73,6 +73,21 @@ def linspace (a b : Rat) (n : Nat) : List Rat :=
 /-- `FunctionCurveBase.discretize(param_from, param_to, count)` for a curve function `f` -/
 def discretizeF {α : Type} (f : Rat → α) (a b : Rat) (n : Nat) : List α := (linspace a b n).map f
 
+/-- `CurveBase._get_params(param_from, param_to)` of a curve with bounds `(lo, hi)`: `None` (and only `None`) is replaced by
+    the bound, then both are checked (`_check_param`); `none` = `ValueError` -/
+def getParamsF (lo hi : Rat) (pf pt : Option Rat) : Option (Rat × Rat) :=
+  let a := pf.getD lo
+  let b := pt.getD hi
+  if lo ≤ a ∧ a ≤ hi ∧ lo ≤ b ∧ b ≤ hi then some (a, b) else none
+
+/-- `FunctionCurveBase.discretize(param_from, param_to, count)` including its argument handling -/
+def discretizeFB {α : Type} (f : Rat → α) (lo hi : Rat) (pf pt : Option Rat) (n : Nat) : Option (List α) :=
+  (getParamsF lo hi pf pt).map (fun ab => discretizeF f ab.1 ab.2 n)
+
+/-- `AnalyticCurve.get_length(param_from, param_to)`: the polyline through a 100-point discretisation -/
+def getLengthA {α : Type} (d : α → α → Rat) (f : Rat → α) (lo hi : Rat) (pf pt : Option Rat) : Option Rat :=
+  (discretizeFB f lo hi pf pt 100).map (polyLenD d)
+
 /-! ### interpolated curves -/
 
 /-- running sums `[c + d0, c + d0 + d1, …]` (`np.cumsum`) -/
@@ -256,6 +271,19 @@ def handleLinspace (args : List String) : Option String :=
       if n < 2 then none else some (showRatList (linspace a b n))
   | _ => none
 
+def parseOptRat? (s : String) : Option (Option Rat) := if s = "none" then some none else (parseRat? s).map some
+
+/-- `c16.params lo hi <a|none> <b|none> n` → `ok a b <linspace a b n>` | `reject` (argument handling of function curves) -/
+def handleParams (args : List String) : Option String :=
+  match args with
+  | [lo, hi, a, b, n] => do
+      let lo ← parseRat? lo; let hi ← parseRat? hi; let a ← parseOptRat? a; let b ← parseOptRat? b; let n ← parseNat? n
+      if n < 2 then none
+      else some (match getParamsF lo hi a b with
+        | some (x, y) => s!"ok {showRat x} {showRat y} {showRatList (linspace x y n)}"
+        | none => "reject")
+  | _ => none
+
 /-- `c16.parray <k>` → indices kept by `point_array` of a k-point discretisation -/
 def handlePArray (args : List String) : Option String :=
   match args with
@@ -278,6 +306,7 @@ def handle (op : String) (args : List String) : Option String :=
   | "c16.lclosest" => handleLClosest false args
   | "c16.linspace" => handleLinspace args
   | "c16.parray" => handlePArray args
+  | "c16.params" => handleParams args
   | _ => none
 
 end CBV.C16
